@@ -168,6 +168,13 @@ def parallel_stage(ctx, thorough, protos=None, sflow_filter=None):
                                  "appears %d times, the datagrams that produce it arrived %d times" % (n, exp[pb]), pb[:160]),
                               dict(case, payload=pb.decode("utf-8", "replace")[:1500]), key=proto + ":parallel-payload")
                 break
+        else:
+            missing = exp - got
+            if missing and r.get("decoded_count") is not None:
+                pb = next(iter(missing))
+                ctx.violation("%s pipeline, 4 workers in parallel: %d of %d datagrams that yield a message on their own were never published "
+                              "(queues empty, producer queue never full): %s" % (proto, sum(missing.values()), sum(exp.values()), pb[:160]),
+                              dict(case, payload=pb.decode("utf-8", "replace")[:1500]), key=proto + ":parallel-missing")
         ctx.extra.setdefault("parallel_runs", []).append({"proto": proto, "datagrams": len(job["data"]), "expected_messages": sum(exp.values()),
                                                           "published": sum(got.values()), "mirror": job.get("mirror", "")})
         ctx.traces_validated += 1
